@@ -207,7 +207,10 @@ pub fn run_one(bytes: &[u8], st: &mut Stats) -> Result<(), Failure> {
 
 static CORPUS: std::sync::OnceLock<Vec<Vec<u8>>> = std::sync::OnceLock::new();
 
-const EXTREMES: [&str; 54] = [
+const EXTREMES: [&str; 60] = [
+    // blanks before / after a quoted key or a value with multi-byte characters (the stand-alone
+    // key and value parsers see the whole input)
+    "{ }'é'", "{\t}\"日本\"", "{ }\"€\"  ", "{ }'é' = 1", "{ }\"日本語\"", "'é'{ }",
     // valid documents with long runs of one character (counters, buffers, quoting decisions)
     "a = \"{'}\"", "a = '{\"}'", "a = \"{\\\"}\"", "a = \"\"\"{'}\"\"\"", "a = \'\'\'{\"}\'\'\'", "\"{'}\" = 1", "'{\"}' = 1",
     "a = \"{\\n}\"", "a = \"\"\"{\n}\"\"\"", "a = [{\"'\",}]", "a = \"{\\\\}\"", "a = '{\\}'", "a = \"{\\u0000}\"", "{a = 1\n}",
